@@ -360,6 +360,15 @@ def c01_2(c: Ctx) -> None:
         c.ok(where(u, loop), f'every iteration stores the handler unless {atom} is true', paths='all iteration paths')
     else:
         c.fail(u, f'iteration path skips the store without {atom}', 'a handler can be dropped by the selection loop although it would not create a loop', node=loop, witness=c.path(head, path))
+    # every looked-up handler gets its iteration: the loop is left only when it is exhausted (dropping one handler must not end the selection for those after it)
+    in_loop = {n.id for st_ in loop.body for n in g.nodes_of(st_)} | {n.id for st_ in loop.body for x in ast.walk(st_) if isinstance(x, ast.stmt) for n in g.nodes_of(x)}
+    leave = search([(head, ())], is_target=lambda n, d: n.id not in in_loop and n is not head,
+                   is_barrier=lambda n, d: n is head, edge_ok=lambda n, e, d: None if ((n is head and e.label != 'iter') or e.is_exc) else d)
+    if leave is None:
+        c.ok(where(u, loop), 'the selection loop is left only when every looked-up handler has had its iteration')
+    else:
+        c.fail(u, 'the selection loop can be left before it is exhausted', 'the handlers after the one at which the loop is left are never selected: registered handlers are silently not run for the event', node=loop,
+               witness=c.path(head, leave))
     # key shape
     for s in stores:
         keyexpr = s.targets[0].slice  # type: ignore[union-attr]
